@@ -70,7 +70,7 @@ func genPayload(r *prng.R, maxLen int) []byte {
 
 func chkEnc(c *ctx, b []byte) string {
 	var s string
-	obs := hx.Safe(func() string {
+	obs := c.safe(func() string {
 		s = base58.CheckEncode(append([]byte{}, b...))
 		return hs(s)
 	})
@@ -85,7 +85,7 @@ func chkEnc(c *ctx, b []byte) string {
 func chkDec(c *ctx, s string) ([]byte, bool) {
 	var out []byte
 	okk := false
-	obs := hx.Safe(func() string {
+	obs := c.safe(func() string {
 		b, err := base58.CheckDecode(s)
 		if err != nil {
 			return "err"
@@ -193,7 +193,7 @@ func famBase58(c *ctx) {
 
 func addrEnc(c *ctx, u util.Uint160) string {
 	var s string
-	obs := hx.Safe(func() string {
+	obs := c.safe(func() string {
 		s = address.Uint160ToString(u)
 		return hs(s)
 	})
@@ -204,7 +204,7 @@ func addrEnc(c *ctx, u util.Uint160) string {
 func addrDec(c *ctx, s string) (util.Uint160, bool) {
 	var u util.Uint160
 	okk := false
-	obs := hx.Safe(func() string {
+	obs := c.safe(func() string {
 		v, err := address.StringToUint160(s)
 		if err != nil {
 			return "err"
@@ -263,7 +263,7 @@ func famAddress(c *ctx) {
 func wifEnc(c *ctx, key []byte, ver byte, comp bool) (string, bool) {
 	var s string
 	okk := false
-	obs := hx.Safe(func() string {
+	obs := c.safe(func() string {
 		v, err := keys.WIFEncode(append([]byte{}, key...), ver, comp)
 		if err != nil {
 			return "err"
@@ -276,7 +276,7 @@ func wifEnc(c *ctx, key []byte, ver byte, comp bool) (string, bool) {
 }
 
 func wifDec(c *ctx, s string, ver byte) (key []byte, comp bool, okk bool) {
-	obs := hx.Safe(func() string {
+	obs := c.safe(func() string {
 		w, err := keys.WIFDecode(s, ver)
 		if err != nil {
 			return "err"
